@@ -1,3 +1,5 @@
 //! Generators (all decode from a choice stream, `engine::Src`).
+pub mod build;
+pub mod prog;
 pub mod types;
 pub mod values;
